@@ -52,6 +52,55 @@ theorem itoh_findWrap {half : ℝ} (hh : 0 < half) {pa pb wa wb : ℝ} {na nb : 
     have h4 : wa - wb < -half := by rw [hd]; push_cast; linarith
     simp [h3, h4]
 
+/-- **Itoh, general form.**  The stored values may be ANY representatives of the true ones
+(`w = φ - 2·half·n`, no window at all): `_find_wrap` returns the difference of the wrap counts as
+soon as the counts of the two neighbours differ by at most one. -/
+theorem itoh_findWrap_step {half : ℝ} (hh : 0 < half) {pa pb wa wb : ℝ} {na nb : ℤ}
+    (ha : wa = pa - 2 * half * na) (hb : wb = pb - 2 * half * nb)
+    (hstep : -1 ≤ na - nb ∧ na - nb ≤ 1)
+    (hitoh : |pa - pb| < half) :
+    findWrap half wa wb = na - nb := by
+  rw [findWrap_real]
+  obtain ⟨h1, h2⟩ := abs_lt.mp hitoh
+  have hd : wa - wb = (pa - pb) - 2 * half * ((na - nb : ℤ) : ℝ) := by
+    rw [ha, hb]; push_cast; ring
+  generalize hk : na - nb = k at hd hstep ⊢
+  obtain ⟨hk2', hk1'⟩ := hstep
+  have hk1'' : k < 2 := by omega
+  have hk2'' : -2 < k := by omega
+  interval_cases k
+  · have : half < wa - wb := by rw [hd]; push_cast; linarith
+    simp [this]
+  · have h3 : ¬ half < wa - wb := by rw [hd]; push_cast; linarith
+    have h4 : ¬ wa - wb < -half := by rw [hd]; push_cast; linarith
+    simp [h3, h4]
+  · have h3 : ¬ half < wa - wb := by rw [hd]; push_cast; linarith
+    have h4 : wa - wb < -half := by rw [hd]; push_cast; linarith
+    simp [h3, h4]
+
+/-- two stored values that lie in one window of width `2·half` (any window: `[-π, π)`, `[0, 2π)`,
+…) have wrap counts at most one apart when the true values are Itoh neighbours -/
+theorem step_of_window {half : ℝ} (hh : 0 < half) {pa pb wa wb : ℝ} {na nb : ℤ}
+    (ha : wa = pa - 2 * half * na) (hb : wb = pb - 2 * half * nb)
+    (hwin : |wa - wb| ≤ 2 * half) (hitoh : |pa - pb| < half) :
+    -1 ≤ na - nb ∧ na - nb ≤ 1 := by
+  obtain ⟨h1, h2⟩ := abs_lt.mp hitoh
+  obtain ⟨w1, w2⟩ := abs_le.mp hwin
+  have hd : wa - wb = (pa - pb) - 2 * half * ((na - nb : ℤ) : ℝ) := by
+    rw [ha, hb]; push_cast; ring
+  generalize na - nb = k at hd ⊢
+  have hk1 : (k : ℝ) < 2 := by
+    by_contra hc
+    have hc : (2 : ℝ) ≤ k := not_lt.mp hc
+    nlinarith
+  have hk2 : (-2 : ℝ) < k := by
+    by_contra hc
+    have hc : (k : ℝ) ≤ -2 := not_lt.mp hc
+    nlinarith
+  have hk1' : k < 2 := by exact_mod_cast hk1
+  have hk2' : -2 < k := by exact_mod_cast hk2
+  omega
+
 /-! ### the assembled output -/
 
 theorem assemble_spec (half : ℝ) (N : Nat) (phi : Nat → ℝ) (incs : List Int) :
@@ -62,7 +111,7 @@ theorem assemble_spec (half : ℝ) (N : Nat) (phi : Nat → ℝ) (incs : List In
   · intro i hi
     simp only [assemble, List.getD_eq_getElem?_getD, List.getElem?_map, List.getElem?_range, hi,
       Option.map_some, Option.getD_some, NumReal.sub_eq, NumReal.add_eq, NumReal.mul_eq,
-      NumReal.two_eq, NumReal.ofInt_eq]
+      NumReal.two_eq, NumReal.ofInt_eq, Array.getD_eq_getD_getElem?, List.getElem?_toArray]
 
 /-! ### offsets on the components of the edge multigraph -/
 
